@@ -3,7 +3,7 @@
    helper registration are decided by the check on the real planner (every emitted sub-request is validated by the
    receiving evaluating fake against ITS OWN schema; coverage/helpers through C01's single-server equality). *)
 From Coq Require Import List String Bool Arith.
-From Pebbles Require Import Base.Json Plan.Vars Plan.VarsProofs Plan.Header Plan.HeaderProofs.
+From Pebbles Require Import Base.Json Plan.Vars Plan.VarsProofs Plan.Header Plan.HeaderProofs Merge.Model Plan.Steps Plan.StepsProofs.
 Import ListNotations.
 Open Scope string_scope.
 
@@ -70,6 +70,51 @@ Example c02_header_nonvacuous :
     [Some "String"; Some "String!"; Some "Int"; Some "Int"; Some "Float"; None].
 Proof. exact ex_header. Qed.
 
+(* ---- ownership: what the planner (extractSelectionSet / createQueryPlanSteps, modelled in Plan/Steps.v) keeps for a
+   service and what it moves into steps for other services ----
+   Hypotheses: the table routes nothing to the gateway's pseudo-service and does not route `id`; interfaces are not in
+   the table; no field has a root type; fragments occur only in selections of abstract types (what the sanitizer
+   leaves: frag_ok). Then every (type, field) site of the selection kept for loc that the table knows is routed to loc,
+   and so is every site of every step made for another service, at every depth (step_ok). *)
+Theorem kept_and_moved_fields_are_owned : forall tm ps f ip p inp l ss cs,
+  (forall q n, tm_get tm q n <> Some internal_service) -> (forall q, tm_get tm q "id" = None) ->
+  (forall i, mem i (ps_interfaces ps) = true -> tm_is_node tm i = None) ->
+  (forall t d, In d (possible ps t) -> is_root d = false) ->
+  is_root p = false -> l <> internal_service -> frags_ok tm p inp = true ->
+  extract f tm ps ip p inp l = Ok (ss, cs) ->
+  good_sels tm l p ss /\ Forall (step_ok tm) cs.
+Proof.
+  intros tm ps f ip p inp l ss cs H1 H2 H3 H4 Hr Hl Hf H.
+  destruct (extract_rec_ok tm ps H1 H2 H3 H4 f ip p inp l ss cs Hr Hl Hf H) as (G1 & G2 & _). split; assumption.
+Qed.
+(* the whole plan: every step, except the one for the gateway's own pseudo-service, asks its service only for fields
+   the routing table gives to that service *)
+Theorem every_plan_step_asks_for_its_own_fields : forall tm ps urls parent input fuel steps,
+  (forall q n, tm_get tm q n <> Some internal_service) -> (forall q, tm_get tm q "id" = None) ->
+  (forall i, mem i (ps_interfaces ps) = true -> tm_is_node tm i = None) ->
+  (forall t d, In d (possible ps t) -> is_root d = false) ->
+  is_root parent = true -> mem parent (ps_interfaces ps) = false ->
+  forallb (frag_ok tm) input = true ->
+  plan_root fuel tm ps urls parent input = Ok steps ->
+  Forall (fun st => s_url st <> internal_service -> step_ok tm st) steps.
+Proof. intros tm ps urls parent input fuel steps H1 H2 H3 H4. exact (plan_steps_owned tm ps urls parent input fuel steps H1 H2 H3 H4). Qed.
+
+(* non-vacuity: { me { id name phone friend { id phone } } } with Human.name/friend at a, Human.phone at b *)
+Definition ex_tm : tmap :=
+  [("Query", mkTP false [("me", "a")]); ("Human", mkTP true [("name", "a"); ("friend", "a"); ("phone", "b")])].
+Definition ex_ps : pschema := mkPS ["Query"; "Human"; "Node"] ["Node"] [("Node", ["Human"])] [("Query", ["me"]); ("Human", ["id"; "name"; "friend"; "phone"])].
+Definition ex_input : list psel :=
+  [PField "me" "me" "Human" [PField "" "id" "ID" []; PField "name" "name" "String" []; PField "phone" "phone" "String" [];
+                             PField "friend" "friend" "Human" [PField "" "id" "ID" []; PField "phone" "phone" "String" []]]].
+Example c02_plan_nonvacuous :
+  forallb (frag_ok ex_tm) ex_input = true /\
+  plan_root 10 ex_tm ex_ps ["a"; "b"] "Query" ex_input =
+    Ok [mkStep "a" "Query" [] [PField "me" "me" "Human" [PField "" "id" "ID" []; PField "name" "name" "String" [];
+                                                       PField "friend" "friend" "Human" [PField "" "id" "ID" []]]]
+          [mkStep "b" "Human" ["me"] [PNode "Human" [PField "phone" "phone" "String" []]] [];
+           mkStep "b" "Human" ["me"; "friend"] [PNode "Human" [PField "phone" "phone" "String" []]] []]].
+Proof. vm_compute. split; reflexivity. Qed.
+
 Example c02_nonvacuous :
   variables_list [SField "a" "f" [("x", VVar "v1"); ("o", VObj [("k", VList [VVar "v2"; VLit "3"])])] []
                          [SInline "T" [] [SField "g" "g" [("y", VVar "v3")] [] []]]]
@@ -87,3 +132,5 @@ Print Assumptions header_declares_every_used_variable.
 Print Assumptions header_declares_only_used_variables.
 Print Assumptions header_declares_every_variable_occurrence.
 Print Assumptions C02_header_needs_annotations.
+Print Assumptions kept_and_moved_fields_are_owned.
+Print Assumptions every_plan_step_asks_for_its_own_fields.
